@@ -17,6 +17,7 @@ var _ = url.PathEscape
 
 //@ use strings
 //@ use join
+//@ use nethttp
 //@ use fmt
 //@ use neturl
 //@ use errors
@@ -514,9 +515,6 @@ func specPathObjFS(style PathStyle, explode bool) byte {
 	return ','
 }
 
-func noByte(s string, c byte) bool {
-	return vForallIn(0, len(s), func(j int) bool { return s[j] != c })
-}
 
 //@ func (e *PathEncoder) object() (r string, err error)
 //@   requires recv:  e.receiver != nil
@@ -863,6 +861,185 @@ func specPathValue(style PathStyle, name, val string) string {
 //@   ensures simple: d.style == PathStyleSimple && old(d.cur.pos) < len(d.cur.src) ==> err == nil && v == d.cur.src[old(d.cur.pos):]
 //@   ensures label:  d.style == PathStyleLabel && old(d.cur.pos)+1 < len(d.cur.src) && d.cur.src[old(d.cur.pos)] == '.' ==> err == nil && v == d.cur.src[old(d.cur.pos)+1:]
 //@   ensures nolabel: d.style == PathStyleLabel && (old(d.cur.pos) >= len(d.cur.src) || d.cur.src[old(d.cur.pos)] != '.') ==> err != nil
+
+// ---------------------------------------------------------------------------
+// 2d'. Header and cookie parameter encoders (uri/header_param_encoder.go, cookie_param_encoder.go):
+//      what goes on the wire is the ghost log "wire" (stdlib/nethttp.go).
+// ---------------------------------------------------------------------------
+
+func lastWire(log []string) string { return log[len(log)-1] }
+
+//@ func (e *headerParamEncoder) serialize() (err error)
+//@   requires recv:  e.receiver != nil
+//@   requires typ:   wfTyp(e.typ)
+//@   requires hdr:   e.header != nil
+//@   requires plain: !strings.EqualFold(e.paramName, "set-cookie")
+//@   modifies log:wire
+//@   ensures unset:  e.typ == typeNotSet ==> err == nil && vSeqEq(vLogStr("wire"), old(vLogStr("wire")))
+//@   ensures value:  e.typ == typeValue ==> err == nil && len(vLogStr("wire")) == len(old(vLogStr("wire"))) + 1 && lastWire(vLogStr("wire")) == "set " + e.paramName + "=" + e.val
+//@   ensures arrRefuse: e.typ == typeArray ==> (err == nil) == (forall k in (0, len(e.items)) :: vTrig(e.items[k]) && noByte(e.items[k], ','))
+//@   ensures array:  e.typ == typeArray && err == nil ==> len(vLogStr("wire")) == len(old(vLogStr("wire"))) + 1 && lastWire(vLogStr("wire")) == "set " + e.paramName + "=" + joinS(e.items, ",")
+//@   ensures objRefuse: e.typ == typeObject ==> (err == nil) == (forall k in (0, len(e.fields)) :: vTrig(e.fields[k]) &&
+//@                        noByte(e.fields[k].Name, specPathObjKV(PathStyleSimple, e.explode)) && noByte(e.fields[k].Value, ','))
+//@   ensures object: e.typ == typeObject && err == nil ==> len(vLogStr("wire")) == len(old(vLogStr("wire"))) + 1 &&
+//@                        lastWire(vLogStr("wire")) == "set " + e.paramName + "=" + joinFrom(e.fields, 0, specPathObjKV(PathStyleSimple, e.explode), ',')
+//@   ensures failSilent: err != nil ==> vSeqEq(vLogStr("wire"), old(vLogStr("wire")))
+//@   loop 0 vars rangeindex int
+//@   loop 0 invariant range: -1 <= rangeindex && rangeindex < len(e.items)
+//@   loop 0 invariant wire:  vSeqEq(vLogStr("wire"), old(vLogStr("wire")))
+//@   loop 1 vars rangeindex int
+//@   loop 1 invariant range: -1 <= rangeindex && rangeindex < len(e.items)
+//@   loop 1 invariant wire:  vSeqEq(vLogStr("wire"), old(vLogStr("wire")))
+//@   loop 1 invariant done:  forall k in (0, rangeindex+1) :: noByte(e.items[k], ',')
+//@   loop 2 vars rangeindex int
+//@   loop 2 invariant range: -1 <= rangeindex && rangeindex < len(e.fields)
+//@   loop 2 invariant wire:  vSeqEq(vLogStr("wire"), old(vLogStr("wire")))
+//@   loop 2 invariant done:  forall k in (0, rangeindex+1) :: noByte(e.fields[k].Name, specPathObjKV(PathStyleSimple, e.explode)) && noByte(e.fields[k].Value, ',')
+
+//@ func (e *cookieParamEncoder) setCookie(val string)
+//@   requires req: e.req != nil
+//@   modifies log:wire
+//@   ensures sent: len(vLogStr("wire")) == len(old(vLogStr("wire"))) + 1 && lastWire(vLogStr("wire")) == "cookie " + e.paramName + "=" + escC(val)
+
+//@ func (e *cookieParamEncoder) serialize() (err error)
+//@   requires recv:  e.receiver != nil && e.req != nil
+//@   requires typ:   wfTyp(e.typ)
+//@   requires form:  e.typ == typeArray || e.typ == typeObject ==> !e.explode
+//@   modifies log:wire
+//@   ensures unset:  e.typ == typeNotSet ==> err == nil && vSeqEq(vLogStr("wire"), old(vLogStr("wire")))
+//@   ensures value:  e.typ == typeValue ==> err == nil && len(vLogStr("wire")) == len(old(vLogStr("wire"))) + 1 && lastWire(vLogStr("wire")) == "cookie " + e.paramName + "=" + escC(e.val)
+//@   ensures arrRefuse: e.typ == typeArray ==> (err == nil) == (forall k in (0, len(e.items)) :: vTrig(e.items[k]) && noByte(e.items[k], ','))
+//@   ensures array:  e.typ == typeArray && err == nil ==> len(vLogStr("wire")) == len(old(vLogStr("wire"))) + 1 && lastWire(vLogStr("wire")) == "cookie " + e.paramName + "=" + escC(joinS(e.items, ","))
+//@   ensures objRefuse: e.typ == typeObject ==> (err == nil) == (forall k in (0, len(e.fields)) :: vTrig(e.fields[k]) && noByte(e.fields[k].Name, ',') && noByte(e.fields[k].Value, ','))
+//@   ensures object: e.typ == typeObject && err == nil ==> len(vLogStr("wire")) == len(old(vLogStr("wire"))) + 1 &&
+//@                        lastWire(vLogStr("wire")) == "cookie " + e.paramName + "=" + escC(joinFrom(e.fields, 0, ',', ','))
+//@   ensures failSilent: err != nil ==> vSeqEq(vLogStr("wire"), old(vLogStr("wire")))
+//@   loop 0 vars rangeindex int
+//@   loop 0 invariant range: -1 <= rangeindex && rangeindex < len(e.items)
+//@   loop 0 invariant wire:  vSeqEq(vLogStr("wire"), old(vLogStr("wire")))
+//@   loop 0 invariant done:  forall k in (0, rangeindex+1) :: noByte(e.items[k], ',')
+//@   loop 1 vars rangeindex int
+//@   loop 1 invariant range: -1 <= rangeindex && rangeindex < len(e.fields)
+//@   loop 1 invariant wire:  vSeqEq(vLogStr("wire"), old(vLogStr("wire")))
+//@   loop 1 invariant done:  forall k in (0, rangeindex+1) :: noByte(e.fields[k].Name, ',') && noByte(e.fields[k].Value, ',')
+
+// Header parameter decoder (uri/header_param_decoder.go): the value is the first header line of that
+// name; arrays are its comma-separated pieces (strings.Split: an empty value is ONE empty piece).
+//@ func (d *headerParamDecoder) DecodeValue() (v string, err error)
+//@   ensures set:   len(d.header.Values(d.paramName)) > 0 ==> err == nil && v == d.header.Values(d.paramName)[0]
+//@   ensures unset: len(d.header.Values(d.paramName)) == 0 ==> err != nil
+
+//@ func (d *headerParamDecoder) DecodeArray(f func(d Decoder) error) (err error)
+//@   callback f(d Decoder) log vals d.(constval).v
+//@   modifies cb:f
+//@   ensures unset: len(d.header.Values(d.paramName)) == 0 ==> err != nil && vSeqEq(vCbLog(f, "vals"), old(vCbLog(f, "vals")))
+//@   ensures items: vCbOK(f) && err == nil ==> vSeqEq(vCbLog(f, "vals"), vCat(old(vCbLog(f, "vals")), splitS(d.header.Values(d.paramName)[0], ',')))
+//@   ensures ok:    vCbOK(f) && len(d.header.Values(d.paramName)) > 0 ==> err == nil
+//@   ensures cbfail: old(vCbOK(f)) && !vCbOK(f) ==> err != nil
+//@   loop 0 vars rangeindex int
+//@   loop 0 invariant range: -1 <= rangeindex && rangeindex < len(splitS(d.header.Values(d.paramName)[0], ','))
+//@   loop 0 invariant mono:  vCbOK(f) == old(vCbOK(f))
+//@   loop 0 invariant acc:   vCbOK(f) ==> vSeqEq(vCbLog(f, "vals"), vCat(old(vCbLog(f, "vals")), splitS(d.header.Values(d.paramName)[0], ',')[:rangeindex+1]))
+
+// Round trip of a header array at the text level: what serialize puts into the header line
+// (strings.Join of the items) splits back into exactly the items (lemma splitJoin), for a non-empty
+// list of items free of ','. The two ends are the contracts above; net/http carries the line.
+//@ func verifHeaderArrayText(items []string) (out []string)
+//@   requires some: len(items) > 0
+//@   requires free: forall k in (0, len(items)) :: vTrig(items[k]) && noByte(items[k], ',')
+//@   uses splitJoin
+//@   ensures rt: vSeqEq(out, items)
+func verifHeaderArrayText(items []string) []string {
+	return strings.Split(strings.Join(items, ","), ",")
+}
+
+// ---------------------------------------------------------------------------
+// 2d''. Query parameter encoder (uri/query_param_encoder.go): the url.Values map is the wire form
+//       (net/url escapes keys and values when the query is encoded). Style table rows form,
+//       spaceDelimited, pipeDelimited, deepObject; combinations the generator does not admit panic
+//       and are excluded by the preconditions (admission is C06's "no admitted combination panics").
+// ---------------------------------------------------------------------------
+
+func validQueryStyle(s QueryStyle) bool {
+	return s == QueryStyleForm || s == QueryStyleSpaceDelimited || s == QueryStylePipeDelimited || s == QueryStyleDeepObject
+}
+
+// one1: the one-element list.
+func one1(s string) []string { return []string{s} }
+
+//@ func (e *queryParamEncoder) encodeValue() (err error)
+//@   requires recv:  e.receiver != nil && e.values != nil
+//@   requires admit: e.style == QueryStyleForm
+//@   modifies e.values[*]
+//@   ensures form: err == nil && vHas(e.values, e.paramName) && vSeqEq(e.values[e.paramName], one1(e.val))
+//@   ensures others: forall k string :: k != e.paramName ==> vHas(e.values, k) == old(vHas(e.values, k)) && vSeqEq(e.values[k], old(e.values[k]))
+
+// the separator of a non-exploded array
+func specQueryArraySep(style QueryStyle) byte {
+	if style == QueryStylePipeDelimited {
+		return '|'
+	}
+	return ','
+}
+
+//@ func (e *queryParamEncoder) encodeArray() (err error)
+//@   requires recv:  e.receiver != nil && e.values != nil
+//@   requires admit: e.style == QueryStyleForm || (e.style == QueryStyleSpaceDelimited && e.explode) || e.style == QueryStylePipeDelimited
+//@   modifies e.values[*]
+//@   ensures explode: e.explode ==> err == nil && vHas(e.values, e.paramName) && vSeqEq(e.values[e.paramName], e.items)
+//@   ensures refuse:  !e.explode ==> (err == nil) == (forall k in (0, len(e.items)) :: vTrig(e.items[k]) && noByte(e.items[k], specQueryArraySep(e.style)))
+//@   ensures joined:  !e.explode && err == nil ==> vHas(e.values, e.paramName) && vSeqEq(e.values[e.paramName], one1(joinS(e.items, str1(specQueryArraySep(e.style)))))
+//@   ensures others:  forall k string :: k != e.paramName ==> vHas(e.values, k) == old(vHas(e.values, k)) && vSeqEq(e.values[k], old(e.values[k]))
+//@   ensures failSilent: err != nil ==> vHas(e.values, e.paramName) == old(vHas(e.values, e.paramName)) && vSeqEq(e.values[e.paramName], old(e.values[e.paramName]))
+//@   loop 0 vars rangeindex int
+//@   loop 0 invariant range: -1 <= rangeindex && rangeindex < len(e.items)
+//@   loop 0 invariant done:  forall k in (0, rangeindex+1) :: noByte(e.items[k], ',')
+//@   loop 1 vars rangeindex int
+//@   loop 1 invariant range: -1 <= rangeindex && rangeindex < len(e.items)
+//@   loop 1 invariant done:  forall k in (0, rangeindex+1) :: noByte(e.items[k], '|')
+
+func deepKey(param string, name string) string { return param + "[" + name + "]" }
+
+// Flat objects. Property names of one object are pairwise distinct (the generated encoders call
+// EncodeField once per declared property); for deepObject the precondition is stated on the keys
+// param[name] (equivalent, and spares the proof an injectivity argument about concatenation).
+//@ func (e *queryParamEncoder) encodeObject() (err error)
+//@   requires recv:  e.receiver != nil && e.values != nil
+//@   requires admit: e.style == QueryStyleForm || (e.style == QueryStyleDeepObject && e.explode)
+//@   requires names: e.style == QueryStyleForm && e.explode ==> (forall i in (0, len(e.fields)) :: forall j in (0, i) :: e.fields[i].Name != e.fields[j].Name)
+//@   requires keys:  e.style == QueryStyleDeepObject ==> (forall i in (0, len(e.fields)) :: forall j in (0, i) :: deepKey(e.paramName, e.fields[i].Name) != deepKey(e.paramName, e.fields[j].Name))
+//@   modifies e.values[*]
+//@   ensures formExplode: e.style == QueryStyleForm && e.explode ==> err == nil &&
+//@                          (forall k in (0, len(e.fields)) :: vHas(e.values, e.fields[k].Name) && vSeqEq(e.values[e.fields[k].Name], one1(e.fields[k].Value)))
+//@   ensures deep:        e.style == QueryStyleDeepObject ==> err == nil &&
+//@                          (forall k in (0, len(e.fields)) :: vHas(e.values, deepKey(e.paramName, e.fields[k].Name)) && vSeqEq(e.values[deepKey(e.paramName, e.fields[k].Name)], one1(e.fields[k].Value)))
+//@   ensures refuse:      e.style == QueryStyleForm && !e.explode ==> (err == nil) == (forall k in (0, len(e.fields)) :: vTrig(e.fields[k]) && noByte(e.fields[k].Name, ',') && noByte(e.fields[k].Value, ','))
+//@   ensures joined:      e.style == QueryStyleForm && !e.explode && err == nil ==> vHas(e.values, e.paramName) && vSeqEq(e.values[e.paramName], one1(joinFields(e.fields, ',', ',')))
+//@   loop 0 vars rangeindex int
+//@   loop 0 modifies e.values[*]
+//@   loop 0 invariant range: -1 <= rangeindex && rangeindex < len(e.fields)
+//@   loop 0 invariant done:  forall k in (0, rangeindex+1) :: vHas(e.values, e.fields[k].Name) && vSeqEq(e.values[e.fields[k].Name], one1(e.fields[k].Value))
+//@   loop 1 vars rangeindex int, out string
+//@   loop 1 invariant range: -1 <= rangeindex && rangeindex < len(e.fields)
+//@   loop 1 invariant done:  forall k in (0, rangeindex+1) :: noByte(e.fields[k].Name, ',') && noByte(e.fields[k].Value, ',')
+//@   loop 1 invariant acc:   out + joinFields(e.fields[rangeindex+1:], ',', ',') == joinFields(e.fields, ',', ',')
+//@   loop 2 vars rangeindex int
+//@   loop 2 modifies e.values[*]
+//@   loop 2 invariant range: -1 <= rangeindex && rangeindex < len(e.fields)
+//@   loop 2 invariant done:  forall k in (0, rangeindex+1) :: vHas(e.values, deepKey(e.paramName, e.fields[k].Name)) && vSeqEq(e.values[deepKey(e.paramName, e.fields[k].Name)], one1(e.fields[k].Value))
+
+//@ func (e *queryParamEncoder) serialize() (err error)
+//@   requires recv:  e.receiver != nil && e.values != nil
+//@   requires typ:   wfTyp(e.typ)
+//@   requires admitV: e.typ == typeValue ==> e.style == QueryStyleForm
+//@   requires admitA: e.typ == typeArray ==> e.style == QueryStyleForm || (e.style == QueryStyleSpaceDelimited && e.explode) || e.style == QueryStylePipeDelimited
+//@   requires admitO: e.typ == typeObject ==> e.style == QueryStyleForm || (e.style == QueryStyleDeepObject && e.explode)
+//@   requires names: e.typ == typeObject && e.style == QueryStyleForm && e.explode ==> (forall i in (0, len(e.fields)) :: forall j in (0, i) :: e.fields[i].Name != e.fields[j].Name)
+//@   requires keys:  e.typ == typeObject && e.style == QueryStyleDeepObject ==> (forall i in (0, len(e.fields)) :: forall j in (0, i) :: deepKey(e.paramName, e.fields[i].Name) != deepKey(e.paramName, e.fields[j].Name))
+//@   modifies e.values[*]
+//@   ensures unset: e.typ == typeNotSet ==> err == nil && (forall k string :: vHas(e.values, k) == old(vHas(e.values, k)) && vSeqEq(e.values[k], old(e.values[k])))
+//@   ensures value: e.typ == typeValue ==> err == nil && vHas(e.values, e.paramName) && vSeqEq(e.values[e.paramName], one1(e.val))
+//@   ensures array: e.typ == typeArray && e.explode ==> err == nil && vSeqEq(e.values[e.paramName], e.items)
 
 // ---------------------------------------------------------------------------
 // 2e. Channel harness (property C01, path parameter of primitive shape): what the generated client
